@@ -52,6 +52,15 @@ def runs_decoded(fx):
     return [r[2][0] for r in fx if r[0] == "call" and r[1] == "bellows.ash.AshProtocol._unstuff_bytes"]
 
 
+def found_index(fx):
+    """index (in the scanned part) of the first reserved byte the scan of this iteration found"""
+    return [r[2][0] for r in fx if r[0] == "scan.first_match"][0]
+
+
+def found_byte(fx):
+    return [r[2][1] for r in fx if r[0] == "scan.first_match"][0]
+
+
 def scanned(P, d0):
     """the part of the old buffer that this iteration scans: all of it normally; while discarding, what follows the
     FIRST flag byte (bytes.partition splits at the first occurrence, so nothing in front of it is a FLAG: Step.resync)"""
@@ -134,13 +143,13 @@ def _(c):
             # (other than ESCAPE), which is a FLAG; the run and the FLAG are consumed, nothing else
             (
                 "the_run_is_the_front_of_the_buffer_up_to_a_flag",
-                lambda self, reserved_index, fx: implies(
+                lambda self, fx: implies(
                     not old(self._discarding_until_next_flag),
                     all(
                         len(r[2][0]) > 0
-                        and r[2][0] == old(self._buffer)[:reserved_index]
-                        and old(self._buffer)[reserved_index] == FLAG
-                        and self._buffer == old(self._buffer)[reserved_index + 1 :]
+                        and r[2][0] == old(self._buffer)[: found_index(fx)]
+                        and old(self._buffer)[found_index(fx)] == FLAG
+                        and self._buffer == old(self._buffer)[found_index(fx) + 1 :]
                         for r in calls_of(fx, "bellows.ash.AshProtocol._unstuff_bytes")
                     ),
                 ),
@@ -171,18 +180,19 @@ def _(c):
             # nothing is lost or invented: the buffer only shrinks
             ("buffer_only_shrinks", lambda self: len(self._buffer) <= old(len(self._buffer))),
             # the iteration IS a step of the specification scanner (lean/AshScanner.lean: Step), or an exit (Final)
-            ("step.first_reserved_byte", lambda self, reserved_index, reserved_byte, broke: implies(
-                not broke, step_first_reserved_ok(scanned(old(self._buffer), old(self._discarding_until_next_flag)), reserved_index, reserved_byte))),
-            ("step.kept_after_a_delimiter", lambda self, reserved_index, reserved_byte, broke: implies(
+            # (the reserved byte found and its index are taken from the record of the scan, not from the code's locals)
+            ("step.first_reserved_byte", lambda self, broke, fx: implies(
+                not broke, step_first_reserved_ok(scanned(old(self._buffer), old(self._discarding_until_next_flag)), found_index(fx), found_byte(fx)))),
+            ("step.kept_after_a_delimiter", lambda self, broke, fx: implies(
                 not broke, step_kept_after_delimiter_ok(scanned(old(self._buffer), old(self._discarding_until_next_flag)), self._buffer,
-                                                        reserved_index, reserved_byte))),
-            ("step.kept_after_flow_control", lambda self, reserved_index, reserved_byte, broke: implies(
+                                                        found_index(fx), found_byte(fx)))),
+            ("step.kept_after_flow_control", lambda self, broke, fx: implies(
                 not broke, step_kept_after_flow_control_ok(scanned(old(self._buffer), old(self._discarding_until_next_flag)), self._buffer,
-                                                           reserved_index, reserved_byte))),
-            ("step.discard_flag", lambda self, reserved_byte, broke: implies(
-                not broke, step_discard_flag_ok(self._discarding_until_next_flag, reserved_byte))),
-            ("step.run_handed_to_the_decoder", lambda self, reserved_index, reserved_byte, broke, fx: implies(
-                not broke, step_runs_ok(scanned(old(self._buffer), old(self._discarding_until_next_flag)), reserved_index, reserved_byte, runs_decoded(fx)))),
+                                                           found_index(fx), found_byte(fx)))),
+            ("step.discard_flag", lambda self, broke, fx: implies(
+                not broke, step_discard_flag_ok(self._discarding_until_next_flag, found_byte(fx)))),
+            ("step.run_handed_to_the_decoder", lambda self, broke, fx: implies(
+                not broke, step_runs_ok(scanned(old(self._buffer), old(self._discarding_until_next_flag)), found_index(fx), found_byte(fx), runs_decoded(fx)))),
             # ... or an exit of it (Final.idle / Final.discarding), handing nothing up
             ("exit.final_configuration", lambda self, broke, fx: implies(
                 broke, runs_decoded(fx) == [] and exit_ok(old(self._buffer), self._buffer, old(self._discarding_until_next_flag), self._discarding_until_next_flag))),
